@@ -17,16 +17,20 @@ import (
 func init() { props["C12"] = runC12 }
 
 type failWriter struct {
-	failAt  int // first byte offset that fails; -1 never
-	written bytes.Buffer
-	calls   int
-	chunks  []any // every Write's payload (healthy runs): the chunk list handed to the model
+	failCall int // 1-based number of the single Write call that fails (transient failure: later calls succeed again); 0 = none
+	failAt   int // first byte offset that fails; -1 never
+	written  bytes.Buffer
+	calls    int
+	chunks   []any // every Write's payload (healthy runs): the chunk list handed to the model
 }
 
 var errSink = errors.New("sink failed")
 
 func (w *failWriter) Write(p []byte) (int, error) {
 	w.calls++
+	if w.failCall > 0 && w.calls == w.failCall {
+		return 0, errSink
+	}
 	if w.failAt < 0 {
 		w.chunks = append(w.chunks, string(p))
 		return w.written.Write(p)
@@ -115,7 +119,7 @@ func runC12(r *Run, replay *Case) {
 		only = replay.Input["prog"].(string) + "|" + replay.Input["entry"].(string)
 	}
 	r.Res.Rule = "every entry point (Render with/without layout, RenderFile, RenderString, RenderByte, RenderReader) x 14 programs (succeeding, failing early/late/in loop/include/layout/required/missing) x " +
-		"writer failing at EVERY byte offset 0..len(output) x pre-cancelled context; non-trivial = every (program, entry, offset); distinct likewise"
+		"writer failing at EVERY byte offset 0..len(output), writer failing transiently at EVERY single Write call x pre-cancelled context; non-trivial = every (program, entry, offset); distinct likewise"
 	for _, p := range c12Progs() {
 		for _, e := range c12Entries {
 			if only != "" && only != p.desc+"|"+e {
@@ -193,6 +197,18 @@ func runC12(r *Run, replay *Case) {
 					ck.Oracle = &Verdict{OK: false, Class: "spurious-writer-error:" + e, Detail: errk.Error()}
 				}
 				r.Add(ck)
+			}
+			// 4. a TRANSIENT failure: exactly one Write call fails (nothing accepted), every other call succeeds. nil must still imply that the
+			//    destination received the complete document.
+			for i := 1; i <= w.calls; i++ {
+				wi := &failWriter{failAt: -1, failCall: i}
+				erri, _ := c12Call(p, e, context.Background(), wi)
+				ci := &Case{Name: fmt.Sprintf("%s via %s, write call %d of %d fails once", p.desc, e, i, w.calls), Input: map[string]any{"prog": p.desc, "entry": e, "case": "fail-call", "k": i},
+					Key: fmt.Sprintf("%s|%s|fail-call|%d", p.desc, e, i), Tags: []string{"entry:" + e, "prog:" + p.desc, "kind:fail-call"}, Oracle: &Verdict{OK: true}, Impl: map[string]any{"err": erri != nil, "len": wi.written.Len()}}
+				if erri == nil && wi.written.String() != full {
+					ci.Oracle = &Verdict{OK: false, Class: "writer-failure-swallowed:" + e + ":transient", Detail: fmt.Sprintf("write call %d of %d failed, the render returned nil, and the destination holds %d of %d bytes: %q", i, w.calls, wi.written.Len(), len(full), wi.written.String())}
+				}
+				r.Add(ci)
 			}
 		}
 	}
